@@ -75,7 +75,7 @@ func c07OpGated(b gofakes3.Backend, op int, body []byte, gate *int32) string {
 		}
 		return "put-ok"
 	case 1: // get k: the whole body with a matching hash and size
-		o := readObjFull(b, "bkt", "k")
+		o := readObjGated(b, "bkt", "k", gate)
 		return "get:" + o
 	case 2: // delete k
 		if _, err := b.DeleteObject("bkt", "k"); err != nil {
@@ -124,13 +124,25 @@ func errCode(err error) string {
 }
 
 func readObjFull(b gofakes3.Backend, bucket, key string) string {
+	return readObjGated(b, bucket, key, nil)
+}
+
+// readObjGated: with a gate the download of the body starts only after the
+// other client is done (natively a short wait, symbolically the same single
+// scheduling point), so that "an overwrite completed while the download was
+// pending" is a schedule the native replay reproduces.
+func readObjGated(b gofakes3.Backend, bucket, key string, gate *int32) string {
 	o, err := b.GetObject(bucket, key, nil)
 	if err != nil || o == nil {
 		return "error:" + errCode(err)
 	}
 	// the slow reader: other requests complete between the answer's headers
 	// and the download of its body
-	vsym.Yield()
+	if gate != nil {
+		vsym.YieldUntil(gate)
+	} else {
+		vsym.Yield()
+	}
 	data := make([]byte, 0, 4)
 	buf := make([]byte, 4)
 	for {
@@ -347,12 +359,19 @@ func VH_C07b() {
 // between reads: the "slow uploader" whose body arrives while other requests
 // complete.
 type yieldingBody struct {
-	data []byte
-	pos  int
+	data  []byte
+	pos   int
+	gate  *int32 // the first byte arrives only after this flag was raised
+	fired bool
 }
 
 func (y *yieldingBody) Read(p []byte) (int, error) {
-	vsym.Yield()
+	if y.gate != nil && !y.fired {
+		y.fired = true
+		vsym.YieldUntil(y.gate)
+	} else {
+		vsym.Yield()
+	}
 	if y.pos >= len(y.data) {
 		return 0, io.EOF
 	}
@@ -365,14 +384,18 @@ func (y *yieldingBody) Read(p []byte) (int, error) {
 }
 
 // c07HTTP performs an HTTP-level operation and renders what the client sees.
-func c07HTTP(h http.Handler, op int, body []byte) string {
+func c07HTTP(h http.Handler, op int, body []byte) string { return c07HTTPGated(h, op, body, nil, nil, nil) }
+
+// c07HTTPGated: bodyGate delays an upload's first byte, started/download are
+// the slow download's flags (see SlowRecorder).
+func c07HTTPGated(h http.Handler, op int, body []byte, bodyGate, started, download *int32) string {
 	switch op {
 	case 0: // PUT with a slow body
 		hdr := http.Header{"Content-Length": {itoa(len(body))}}
-		r := Do(h, Req{Method: "PUT", Path: "/bkt/k", Header: hdr, Body: &yieldingBody{data: body}, Length: int64(len(body))})
+		r := Do(h, Req{Method: "PUT", Path: "/bkt/k", Header: hdr, Body: &yieldingBody{data: body, gate: bodyGate}, Length: int64(len(body))})
 		return "put:" + itoa(r.Code()) + ":" + r.Hdr.Get("ETag")
-	case 1: // GET: body, length and ETag must belong together
-		r := Do(h, Req{Method: "GET", Path: "/bkt/k"})
+	case 1: // GET by a slow client: body, length and ETag must belong together
+		r := DoSlow(h, Req{Method: "GET", Path: "/bkt/k"}, started, download)
 		if r.Code() != 200 {
 			return "get:" + itoa(r.Code()) + ":" + r.ErrCode()
 		}
@@ -419,8 +442,17 @@ func VH_C07h() {
 
 	h, s := c07HTTPState(versioned)
 	var ra, rb string
-	vsym.Go(func() { ra = c07HTTP(h, 0, bodyA) })
-	vsym.Go(func() { rb = c07HTTP(h, opB, bodyB) })
+	// the flags make "the download began, then the upload completed, then the
+	// bytes were taken" a schedule that the native replay reproduces
+	var startedB, doneA int32
+	vsym.Go(func() {
+		ra = c07HTTPGated(h, 0, bodyA, &startedB, nil, nil)
+		vsym.SetFlag(&doneA)
+	})
+	vsym.Go(func() {
+		rb = c07HTTPGated(h, opB, bodyB, nil, &startedB, &doneA)
+		vsym.SetFlag(&startedB)
+	})
 	vsym.Join()
 	f := c07Final(s)
 	ab := vsym.And(vsym.And(vsym.StrEq(ra, a1), vsym.StrEq(rb, b1)), vsym.StrEq(f, f1))
